@@ -32,6 +32,30 @@ CHECKS["C01"] = dict(
          "initial quotient nsamps//(gulp-skipback) above it are cut (counted in the evidence) and outside the claim.",
     design="DESIGN.md section 4 (C01)")
 
+CHECKS["C03"] = dict(
+    engine="E1 nbsym (symbolic interpreter of numba's typed IR, 8/64-bit bit-vectors) + E2 pysym on the bits.pack/unpack wrappers; z3",
+    technique="symbolic execution of numba's typed IR of the 12 bit kernels over bit-vectors (all byte values), plus DSE of the real wrapper bytecode with symbolic sizes; z3 decides, models replayed on the compiled kernels",
+    text="For each of the 12 dispatched kernels the typed IR numba compiles (types and resolved signatures of every operation taken from "
+         "numba's own pipeline) is executed over free 8-bit bit-vectors: unpack(b)[k] equals the bit-field definition for the kernel's bit order, "
+         "pack(unpack(b))=b, unpack(pack(v))=v for in-range v - complete over byte values, array lengths 0..3 (quick) / 0..6 (thorough). "
+         "The real bits.unpack/bits.pack wrappers are executed symbolically with unbounded array and buffer sizes for every "
+         "(nbits, bitorder, dtype, buffer) configuration: ValueError exactly for invalid arguments, dispatch to the kernel named by depth and order, "
+         "caller buffer vs allocated buffer. The interpreter is validated on every run against the compiled kernels on all 256 byte values.",
+    note="Trusted: numba lowers the typed IR it reports. Kernel array lengths above the bound are outside the claim.",
+    design="DESIGN.md section 4 (C03)")
+
+CHECKS["C19"] = dict(
+    engine="E1 nbsym race mode (two symbolic prange iterations on numba's typed IR) + z3",
+    technique="two-iteration symbolic execution of each prange body from numba's typed IR with unbounded symbolic sizes; z3 (NIA) decides write/any aliasing between distinct iterations; models replayed on the real py_func with access-recording arrays",
+    text="Every parallel=True kernel in scope is captured from numba's pipeline; its prange body is executed for two arbitrary distinct "
+         "iteration indices with all size arguments symbolic (within their machine width) and inner loops summarised by one arbitrary iteration; "
+         "all array accesses are logged as index terms and z3 proves that no write of one iteration can alias a read or write of the other "
+         "(plus: scalars assigned in the body are iteration-local). A model gives concrete sizes and two iteration numbers, which are replayed "
+         "on the kernel's real Python body with recording arrays to exhibit the shared element.",
+    note="Assumes caller arrays do not alias and the listed call-site preconditions (0<=delay<=maxdelay, chan_to_sub<nsubs); numba's scheduler "
+         "and scalar privatisation are trusted; simulate_ism is outside the property.",
+    design="DESIGN.md section 4 (C19)")
+
 NOT_APPLICABLE = {}
 
 PENDING = "check not built yet in this round (see DESIGN.md section 8 for the build order); no claim is made"
@@ -67,7 +91,9 @@ def main():
                    source_commits=[], add_only=True),
         engines=[
             dict(name="pysym", path="symx/core.py", kind_free_text="E2: re-execution based dynamic symbolic execution of real Python bytecode with z3; functional symbolic arrays; symbolic raw-file layer",
-                 serves_properties=sorted(k for k in CHECKS)),
+                 serves_properties=sorted(k for k in CHECKS if "E2" in CHECKS[k]["engine"])),
+            dict(name="nbsym", path="symx/nbsym.py", kind_free_text="E1: symbolic interpreter of numba's typed IR (captured from numba's own pipeline), bit-vector / Int+Real modes, two-iteration race mode",
+                 serves_properties=sorted(k for k in CHECKS if "E1" in CHECKS[k]["engine"])),
         ],
         checks=checks,
         notes="Solver-based checking of the real code; see DESIGN.md. exit 0 = held within the stated bounds, 1 = replayed violation, 2 = inconclusive (never a pass).",
